@@ -29,7 +29,7 @@ def _vspec(rng, g, kind=None, elem=None):
         return {'k': 'scalar', 'e': e, 'base': base}
     if k == 'seq':
         ln = rng.choice(['n', 'n', 'n', 'n', 'n+1', 'n-1', 1, 0])
-        c = rng.choice(['list', 'list', 'tuple', 'range', 'ndarray', 'ndarray'])
+        c = rng.choice(['list', 'list', 'tuple', 'range', 'ndarray', 'ndarray', 'ndview', 'readonly', 'series'])
         e = elem if rng.random() < 0.85 else rng.choice(['none', 'nan', 'longstr', 'str', 'float'])
         return {'k': 'seq', 'c': c, 'len': ln, 'e': e, 'base': base}
     if k == 'nested':
@@ -41,7 +41,7 @@ def _good_vspec(rng, g, elem, whole=True):
     g['base'] += 7
     if not whole or rng.random() < 0.4:
         return {'k': 'scalar', 'e': elem, 'base': g['base']}
-    return {'k': 'seq', 'c': rng.choice(['list', 'tuple', 'ndarray'] + (['range'] if elem == 'int' else [])), 'len': 'n', 'e': elem, 'base': g['base']}
+    return {'k': 'seq', 'c': rng.choice(['list', 'tuple', 'ndarray', 'ndview', 'readonly', 'series'] + (['range'] if elem == 'int' else [])), 'len': 'n', 'e': elem, 'base': g['base']}
 
 
 def gen_family(rng, variant):
@@ -60,7 +60,7 @@ def op_templates():
     vs = []
     for e in ('float', 'int', 'bool', 'str', 'none', 'nan', 'longstr'):
         vs.append({'k': 'scalar', 'e': e})
-    for c in ('list', 'tuple', 'range', 'ndarray'):
+    for c in ('list', 'tuple', 'range', 'ndarray', 'ndview', 'readonly', 'series'):
         for ln in ('n', 'n+1', 'n-1', 1, 0):
             vs.append({'k': 'seq', 'c': c, 'len': ln, 'e': '?'})
     for rows in ('n', 'n-1', 1):
